@@ -279,13 +279,14 @@ def xy_refs_designate_written_cells(l0: int, l1: int, l2: int, bubble: bool) -> 
         data.append(pts)
     w = cd._workbook_writer  # the writer the chart part uses: it lives as long as the chart-data object
     ok = _xy_consistent(cd, w, data, bubble)
-    # stale state: append a point to the first series of the same chart-data object and render again
-    x, y, z = 77.0, 78.5, 79.0
-    if bubble:
-        cd[0].add_data_point(x, y, z)
-    else:
-        cd[0].add_data_point(x, y)
-    data[0].append((x, y, z))
+    # stale state: append two points to the first series of the same chart-data object and render again
+    # (two points: one more row than the spacer row between two series tables can absorb)
+    for x, y, z in ((77.0, 78.5, 79.0), (87.0, 88.5, 89.0)):
+        if bubble:
+            cd[0].add_data_point(x, y, z)
+        else:
+            cd[0].add_data_point(x, y)
+        data[0].append((x, y, z))
     return ok and _xy_consistent(cd, w, data, bubble)
 
 
